@@ -69,7 +69,7 @@ func overlapsWrite(ts1, ts2, a uint64, ws []rec) bool {
 func main() {
 	seed := flag.Uint64("seed", 1, "seed")
 	nh := flag.Int("n", 100, "histories")
-	workload := flag.String("workload", "mem", "mem | file-disjoint | file-handoff | file-shared")
+	workload := flag.String("workload", "mem", "mem | file-disjoint | file-handoff | file-shared | file-writers")
 	maxThreads := flag.Int("threads", 5, "max goroutines")
 	maxOps := flag.Int("ops", 5, "max ops per goroutine")
 	sync_ := flag.Bool("sync", false, "spin barrier before every call so that calls of different goroutines overlap")
@@ -84,8 +84,8 @@ func main() {
 	defer w.Flush()
 	master := rng.New(*seed)
 	defer func() {
-		if *workload == "file-shared" {
-			fmt.Fprintf(os.Stderr, "file-shared: %d reads overlapping a write of their address were left out\n", dropped)
+		if *workload == "file-shared" || *workload == "file-writers" {
+			fmt.Fprintf(os.Stderr, "file-shared/file-writers: %d reads overlapping a write of their address were left out\n", dropped)
 		}
 	}()
 	for h := 0; h < *nh; h++ {
@@ -94,6 +94,9 @@ func main() {
 		n := uint64(1 + r.Intn(3))
 		if *workload == "file-disjoint" {
 			n = uint64(nthreads) * 2
+		}
+		if *workload == "file-writers" {
+			n = 1
 		}
 		var d disk.Disk
 		switch *workload {
@@ -134,10 +137,13 @@ func main() {
 					}
 				}
 				k := tr.Intn(10)
-				if *workload == "file-shared" {
-					// one writer (goroutine 0), every other goroutine only reads: writes to one
-					// address never overlap each other, reads race with them on shared addresses
-					if t == 0 {
+				if *workload == "file-shared" || *workload == "file-writers" {
+					// file-shared: one writer (goroutine 0), every other goroutine only reads:
+					// writes to one address never overlap each other, reads race with them on
+					// shared addresses.  file-writers: goroutines 0 and 1 both write (whole-block
+					// pwrites of one file are serialised by the kernel's inode lock), values
+					// drawn from a small set so that a value is written again later.
+					if t == 0 || (t == 1 && *workload == "file-writers") {
 						k = 0
 					} else if k < 4 {
 						k = 4 + k%5
@@ -146,6 +152,9 @@ func main() {
 				switch {
 				case k < 4:
 					x := byte(1 + (t*41+i*7)%250)
+					if *workload == "file-writers" {
+						x = byte(1 + t%2) // each writer keeps writing its own value
+					}
 					plan[i] = rec{kind: 0, a: a, x: x}
 					blocks[i] = bytes.Repeat([]byte{x}, BS)
 				case k < 7:
@@ -221,11 +230,34 @@ func main() {
 		}
 		close(start)
 		wg.Wait()
+		if *workload == "file-writers" {
+			// at rest: on every address write 1, 2, 1 with a read after each (none of these overlaps anything)
+			buf := make([]byte, BS)
+			for a := uint64(0); a < n; a++ {
+				for _, x := range []byte{1, 2, 1} {
+					w := rec{kind: 0, a: a, x: x, resp: "U"}
+					w.ts1 = ctr.Add(1)
+					d.Write(a, bytes.Repeat([]byte{x}, BS))
+					w.ts2 = ctr.Add(1)
+					rd := rec{kind: 2, a: a}
+					rd.ts1 = ctr.Add(1)
+					d.ReadTo(a, buf)
+					rd.ts2 = ctr.Add(1)
+					if y, ok := uniform(buf); ok {
+						rd.resp = fmt.Sprintf("B %d", y)
+					} else {
+						rd.resp = "TORN " + enc.RLE(buf)
+					}
+					recs[0] = append(recs[0], w, rd)
+				}
+			}
+		}
 		d.Close()
 		var all []event
 		for t, rs := range recs {
 			for _, p := range rs {
-				if *workload == "file-shared" && (p.kind == 1 || p.kind == 2) && overlapsWrite(p.ts1, p.ts2, p.a, recs[0]) {
+				if (*workload == "file-shared" || *workload == "file-writers") && (p.kind == 1 || p.kind == 2) &&
+					(overlapsWrite(p.ts1, p.ts2, p.a, recs[0]) || (*workload == "file-writers" && len(recs) > 1 && overlapsWrite(p.ts1, p.ts2, p.a, recs[1]))) {
 					// the result of a pread racing with a pwrite of the same block is the
 					// kernel's business; what is judged is every read ordered in real time
 					// with all writes of its address (dropping reads keeps a linearizable
